@@ -84,6 +84,7 @@ func funcDecl(pk *packages.Package, name string, recv string) *ast.FuncDecl {
 func runC17(c *eng.Ctx) {
 	p := c.P
 	intermediateShipsWhatItPlanned(c)
+	enumLoopsReachTheLastConstant(c)
 	wireReaderInventsNothing(c)
 	exprDecoderOnlyFailsOnDecoding(c)
 	pk := p.Package("sql/stmt")
